@@ -164,7 +164,13 @@ def cell_to_lonlat(cell_id: int) -> LonLat:
     cell = deserialize(cell_id)
     pentagon = _get_pentagon(cell)
     point = _dodecahedron.inverse(pentagon.get_center(), cell["origin"].id)
-    return to_lonlat(point)
+    longitude, latitude = to_lonlat(point)
+    # to_lonlat yields theta - LONGITUDE_OFFSET, which reaches down to -273: wrap into [-180, 180]
+    if longitude < -180:
+        longitude += 360
+    elif longitude > 180:
+        longitude -= 360
+    return (longitude, latitude)
 
 def cell_to_boundary(
     cell_id: int,
